@@ -46,7 +46,7 @@ func VerifC09_SharedAssets() {
 	sa := verifNewAssets()
 	sa.fields = flows.NewFieldAssets([]assets.Field{&verifFieldAsset{"nick", assets.FieldTypeText}})
 	g := flows.VerifQueryGroup(env, sa.fields, "g-name", "Named", contactql.NewCondition(contactql.PropertyTypeAttribute, contactql.AttributeName, contactql.OpNotEqual, ""))
-	sa.groups = flows.VerifGroupAssets(g, flows.VerifStaticGroup("g-s", "Static"))
+	sa.groups, _ = flows.VerifGroupAssets(env, sa.fields, g, flows.VerifStaticGroup("g-s", "Static"))
 	loc := definition.NewLocalization()
 	loc.SetItemTranslation("spa", "a2", "text", []string{"hola @contact.name"})
 	loc.SetItemTranslation("spa", "c0", "name", []string{"Rojo"})
